@@ -179,6 +179,18 @@ class Progress:
                         changed = True
 
 
+def _positive_unsigned(v, depth=0):
+    """v (an expression over values of one unsigned type) is at least 1: a positive constant, or a sum with such a term"""
+    v = strip(v)
+    if v[0] == 'checked':
+        v = ('binop', v[1], v[2], v[3])
+    if v[0] == 'int':
+        return v[1] > 0
+    if v[0] == 'binop' and v[1] == 'Add' and depth < 6:
+        return _positive_unsigned(v[2], depth + 1) or _positive_unsigned(v[3], depth + 1)
+    return False
+
+
 def counted_progress(fn, header, body):
     """blocks that step a loop counter: a local that, inside the loop, is only ever decreased (or only ever increased) by a
     positive constant, and that an exit test of the loop compares (with a loop-invariant bound when it counts up).  Passing
@@ -206,6 +218,11 @@ def counted_progress(fn, header, body):
                 if v[0] == 'binop' and v[1] in ('Sub', 'Add') and strip(v[2]) == ('mlocal', l) and strip(v[3])[0] == 'int' and strip(v[3])[1] > 0:
                     k = v[1]
                     steps.add(strip(v[3])[1])
+                elif v[0] == 'binop' and v[1] == 'Add' and strip(v[2]) == ('mlocal', l) and (fn.local_ty(l) or '') in ('usize', 'u8', 'u16', 'u32', 'u64') \
+                        and _positive_unsigned(strip(v[3])):
+                    # `pos += 1 + width`: a sum of unsigned values one of which is a positive constant
+                    k = 'Add'
+                    steps.add('var')
             kinds.add(k)
         if len(kinds) != 1 or None in kinds:
             continue
